@@ -84,6 +84,10 @@ func runC12(r *Run) {
 		c := &dlCase{mode: modes[rng.Intn(len(modes))], hosts: hostSets[rng.Intn(len(hostSets))], split: rng.Intn(2) == 0, noUser: rng.Intn(6) == 0,
 			tmpl: tmpls[rng.Intn(len(tmpls))], auth: rng.Intn(8) != 0, user: users[rng.Intn(len(users))], ip: []string{"192.0.2.1", "2001:db8::7", "10.1.1.1"}[rng.Intn(3)]}
 		c.at = fmt.Sprintf("at-c12-%d", i)
+		if i%9 == 4 {
+			// identity providers hand out long (JWT) access tokens; the gateway's token embeds them
+			c.at += "-" + strings.Repeat("0123456789abcdef", []int{40, 60, 100}[i%3])
+		}
 		c.idpSub = c.user
 		if rng.Intn(5) == 0 {
 			c.idpSub = "sub-" + fmt.Sprint(rng.Intn(1000))
@@ -212,6 +216,19 @@ func runC12(r *Run) {
 				ok2, _ = security.CheckSession(security.CheckHost)(ctx, ls["full address"])
 			}
 			obsv[i].accept = b01(ok1 && ok2)
+			if ok1 && ok2 && len(c.at) > 200 {
+				// the same through the packet loop's own parsing of the cookie (TUNNEL_CREATE)
+				reads := [][]byte{mkPacket(tHandshake, bodyHandshake(1, 0, 0, 2)), mkPacket(tTunnel, bodyTunnelCreate(0, 1, append(utf16le(ls["gatewayaccesstoken"]), 0, 0)))}
+				ir := runProcessWith(&gwCfg{token: true}, reads, nil, func(t *protocol.Tunnel, g *protocol.Gateway) context.Context {
+					g.CheckPAACookie = security.CheckPAACookie
+					t.User.SetAttribute(identity.AttrClientIp, c.ip)
+					return context.WithValue(ctxWithIdentity(t.User), protocol.CtxTunnel, t)
+				})
+				if len(ir.elems) < 2 || len(ir.elems[1].writes) != 1 || hx(ir.elems[1].writes[0][10:14]) != "00000000" {
+					obsv[i].accept = "0"
+					obsv[i].body += "\n(refused at TUNNEL_CREATE by the packet loop: " + implModelCanon(ir, true) + ")"
+				}
+			}
 		}
 		r.Dist("mode:" + c.mode)
 	}
